@@ -1,6 +1,7 @@
 package gen
 
 import (
+	"strconv"
 	"fmt"
 	"strings"
 
@@ -409,6 +410,10 @@ func Config(t *rapid.T) hist.Cfg {
 
 // History draws a complete history.
 func History(t *rapid.T, o HistOpt) *hist.History {
+	if strconv.IntSize == 32 {
+		// a 32-bit process has 3 GiB of address space: the scale shapes stay with the 64-bit shards
+		o.Scale, o.ScaleTx, o.ScaleRows, o.ManyTables = false, false, false, 0
+	}
 	h := &hist.History{}
 	if o.FixedCfg != nil {
 		h.Cfg = *o.FixedCfg
